@@ -436,6 +436,16 @@ def register_cholesky(A, L):
     ctx().__dict__.setdefault("_chol", []).append((_obj(A), _obj(L)))
 
 
+def s_multi_dot(arrays, *a, **kw):
+    arrays = list(arrays)
+    if any(isinstance(x, (orth.LMat, orth.LVec)) or has_sym(x) for x in arrays):
+        acc = arrays[0]
+        for x in arrays[1:]:
+            acc = s_matmul(acc, x)
+        return acc
+    return np.linalg.multi_dot(arrays, *a, **kw)
+
+
 def s_delete(arr, idx, axis=None):
     if isinstance(arr, np.ndarray) and arr.dtype == object:
         return np.array([e for k, e in enumerate(arr.ravel()) if k not in set(np.atleast_1d(idx).tolist())], dtype=object) \
@@ -608,7 +618,7 @@ for _r, _s in [
     (scipy.linalg.inv, s_inv), (np.linalg.inv, s_inv), (np.outer, s_outer), (np.trace, s_trace),
     (np.diagflat, s_diagflat), (np.diag, s_diag), (scipy.linalg.block_diag, s_block_diag),
     (__import__("scipy.optimize", fromlist=["x"]).linear_sum_assignment, s_linear_sum_assignment),
-    (np.delete, s_delete), (np.fill_diagonal, s_fill_diagonal), (np.linalg.cholesky, s_cholesky),
+    (np.linalg.multi_dot, s_multi_dot), (np.delete, s_delete), (np.fill_diagonal, s_fill_diagonal), (np.linalg.cholesky, s_cholesky),
     (math.floor, m_floor), (math.sin, _m1("sin", sym.fn_sin)), (math.cos, _m1("cos", sym.fn_cos)),
     (math.sqrt, _m1("sqrt", sym.fn_sqrt)), (math.asin, _m1("asin", sym.fn_arcsin)), (math.acos, _m1("acos", sym.fn_arccos)),
     (math.atan, _m1("atan", sym.fn_arctan)), (math.fabs, _m1("fabs", abs)), (math.exp, _m1("exp", sym.fn_exp)),
